@@ -64,8 +64,8 @@
 (*     tree sees them (empty or dot segments), patterns not starting with  *)
 (*     "/", and the odd shape "*name:more": InScopePat is false, the       *)
 (*     registration outcome is not judged                                  *)
-(*   - UseRawPath = true is modelled only as: parameter value =            *)
-(*     Unescape(substring) for the escapes listed in Unesc                 *)
+(*   - UseRawPath x UnescapePathValues: see Routed / ParamList below; only *)
+(*     the escapes %41, %2B, %25 are modelled; RemoveExtraSlash is off     *)
 (***************************************************************************)
 EXTENDS Integers, Sequences, FiniteSets, TLC
 
@@ -177,22 +177,37 @@ InScopePath(s) ==
        /\ Ch(s, i) \notin {"%", "?", "#", "\\"}
        /\ i < Len(s) => SubSeq(s, i, i + 1) \notin {"//", "/."}
 
-(* UseRawPath = true, UnescapePathValues = true (engine.go): the tree walks the escaped text, the handler must see    *)
-(* the unescaped value of the substring the parameter matched.  Only the escape "%41" ("A") is modelled.              *)
-RECURSIVE UnescFrom(_, _)
-UnescFrom(v, i) == IF i > Len(v) THEN ""
-                   ELSE IF Ch(v, i) = "%" /\ i + 2 <= Len(v) /\ SubSeq(v, i + 1, i + 2) = "41" THEN "A" \o UnescFrom(v, i + 3)
-                   ELSE Ch(v, i) \o UnescFrom(v, i + 1)
-Unesc(v) == IF HasChar(v, "%") THEN UnescFrom(v, 1) ELSE v
-InScopeRawPath(s) ==
+(* The two path options of Engine.ServeHTTP (pkg/common/config/option.go):                                            *)
+(*   UseRawPath = false (default)  the tree walks URI().Path(), i.e. the request path percent-decoded ONCE; a         *)
+(*                                 parameter is the substring of that decoded path it matched, whatever              *)
+(*                                 UnescapePathValues says ("effectively true, as the path is already unescaped");   *)
+(*                                 "+" is an ordinary path byte                                                      *)
+(*   UseRawPath = true             the tree walks the path as sent; a parameter is the substring it matched,         *)
+(*                                 percent-decoded once if UnescapePathValues (default true), else as sent           *)
+(* Escapes modelled: %41 (A), %2B (+), %25 (%) -- so "%2541" is the text "%41" after one decoding.  Not judged       *)
+(* (InScopeSent false): any other "%", and "+" when UseRawPath and UnescapePathValues are both on (the code uses     *)
+(* url.QueryUnescape there, which also turns "+" into a space; the option text does not say whether it should).      *)
+EscPairs == {"41", "2B", "25"}
+EscByte(h) == IF h = "41" THEN "A" ELSE IF h = "2B" THEN "+" ELSE "%"
+RECURSIVE DecFrom(_, _)
+DecFrom(v, i) == IF i > Len(v) THEN ""
+                 ELSE IF Ch(v, i) = "%" /\ i + 2 <= Len(v) /\ SubSeq(v, i + 1, i + 2) \in EscPairs
+                      THEN EscByte(SubSeq(v, i + 1, i + 2)) \o DecFrom(v, i + 3)
+                 ELSE Ch(v, i) \o DecFrom(v, i + 1)
+Dec(v) == IF HasChar(v, "%") THEN DecFrom(v, 1) ELSE v          \* one percent-decoding pass
+\* the path the tree walks for the request path s
+Routed(raw, s) == IF raw THEN s ELSE Dec(s)
+\* request paths (as sent) this specification judges under the given options
+InScopeSent(raw, unesc, s) ==
   /\ Len(s) >= 1 /\ Ch(s, 1) = "/"
   /\ \A i \in 1 .. Len(s) :
-       /\ Ch(s, i) \notin {"?", "#", "\\", "+"}
-       /\ i < Len(s) => SubSeq(s, i, i + 1) \notin {"//", "/."}
-       /\ Ch(s, i) = "%" => (i + 2 <= Len(s) /\ SubSeq(s, i + 1, i + 2) = "41")
+       /\ Ch(s, i) \notin {"?", "#", "\\"}
+       /\ Ch(s, i) = "%" => (i + 2 <= Len(s) /\ SubSeq(s, i + 1, i + 2) \in EscPairs)
+       /\ (raw /\ unesc) => Ch(s, i) # "+"
+  /\ LET r == Routed(raw, s) IN \A i \in 1 .. Len(r) - 1 : SubSeq(r, i, i + 1) \notin {"//", "/."}
 
-\* what a handler must observe: ctx.Params as <<[k, v], ...>>
-ParamList(r, vals, raw) == [k \in 1 .. Len(vals) |-> [k |-> r.names[k], v |-> IF raw THEN Unesc(vals[k]) ELSE vals[k]]]
+\* what a handler must observe: ctx.Params as <<[k, v], ...>>; dec = UseRawPath /\ UnescapePathValues
+ParamList(r, vals, dec) == [k \in 1 .. Len(vals) |-> [k |-> r.names[k], v |-> IF dec THEN Dec(vals[k]) ELSE vals[k]]]
 
 \* the search for s backs out of a PARAM edge whose consumed text contains an escape (used by the generator only, to
 \* label the cases in which known finding C06-rawpath-backtrack can show)
